@@ -32,3 +32,7 @@ for e in TABLE:
                                    raw=out[:out.find('CONFIRMED')].strip()[:800]),
                     checks_run={k: dict(exit=v["rc"], summary=v["lines"][:6]) for k, v in results.items()})
         json.dump(meta, open(f"{d}/meta.json", "w"), indent=1)
+
+# leave the translator-generated cfg model in the state of the unchanged tree
+import subprocess as _sp
+_sp.run(["python3", "/verif/tools/cfg_translate.py", "/repo"], stdout=_sp.DEVNULL)
